@@ -123,6 +123,10 @@ ReadExplained ==
         ELSE IF fk \in DOMAIN f THEN res[t] = [err |-> "ok", val |-> f[fk]]
                                 ELSE res[t] = [err |-> "ErrKeyNotFound", val |-> <<>>]
 
+(* the restated read results (KVStoreConc!ReadRes) are what Do produces: checked on every Lin step of a read *)
+ReadResAgreesA == \A t \in Threads : (QuietRes(t) # NoRes /\ pc'[t] = "lin" /\ Variant = "code") => res'[t] = QuietRes(t)
+ReadResAgrees == [][ReadResAgreesA]_mcvars
+
 (* a Commit that returned ok has applied every one of its writes *)
 CommitComplete == \A t \in Threads : (pc[t] \in {"flushing", "lin"} /\ call[t].op = "Commit") => todo[t] = {}
 
